@@ -221,12 +221,22 @@ func (e *specEnv) eval(s *SExpr) T {
 		}
 		e.binders = append(e.binders, frame)
 		body := e.eval(s.Args[0])
+		var pats []string
+		for _, pe := range s.Args[1:] {
+			pats = append(pats, e.eval(pe).S)
+		}
 		e.binders = e.binders[:len(e.binders)-1]
 		g := and(guards...)
-		if s.Name == "forall" {
-			return mkBool(fmt.Sprintf("(forall (%s) %s)", strings.Join(decls, " "), implies(g, body.S)))
+		wrapPat := func(b string) string {
+			if len(pats) == 0 {
+				return b
+			}
+			return fmt.Sprintf("(! %s :pattern (%s))", b, strings.Join(pats, " "))
 		}
-		return mkBool(fmt.Sprintf("(exists (%s) %s)", strings.Join(decls, " "), and(g, body.S)))
+		if s.Name == "forall" {
+			return mkBool(fmt.Sprintf("(forall (%s) %s)", strings.Join(decls, " "), wrapPat(implies(g, body.S))))
+		}
+		return mkBool(fmt.Sprintf("(exists (%s) %s)", strings.Join(decls, " "), wrapPat(and(g, body.S))))
 	case "call":
 		return e.evalCall(s)
 	case "mcall":
@@ -562,6 +572,20 @@ func (e *specEnv) evalCall(s *SExpr) T {
 		// bigval(p): mathematical value of *big.Int p
 		p := e.eval(s.Args[0])
 		return mkMath(x.bigVal(e.cur(), p.S))
+	case "arr":
+		// arr(s): the element array of a slice whose offset is 0 (index i of s is arr(s)[i])
+		v := e.eval(s.Args[0])
+		if slcOff(v.S) != "0" {
+			// general case: offset not syntactically 0; still sound when it is 0 semantically
+			e.st.assume(eq(slcOff(v.S), "0"))
+			x.note("assumption: slice passed to arr() in a spec of %s has offset 0", x.unit)
+		}
+		return T{S: slcArr(v.S)}
+	case "store":
+		a := e.eval(s.Args[0])
+		k := e.eval(s.Args[1])
+		v := e.eval(s.Args[2])
+		return T{S: fmt.Sprintf("(store %s %s %s)", a.S, k.S, v.S)}
 	case "big2str":
 		x.d.declareFun("big2str", []string{"Int"}, "Str")
 		return T{S: app("big2str", e.eval(s.Args[0]).S), Ty: tyString}
@@ -738,9 +762,15 @@ func (x *Exec) declareSpecFunc(sf *specFuncInfo) {
 	rt, rs := x.prog.resolveSpecType(x.d, pkg, sf.decl.Ret)
 	sf.retTy = rt
 	x.d.declareFun("sf_"+sf.decl.Name, sorts, rs)
-	// axioms mentioning this function are added lazily: all axioms of the package
+	// axioms are added lazily: those that mention this function; axioms that
+	// mention no spec function at all (facts about built-in string/number
+	// functions) only in lemma units of the same package
 	for _, ax := range x.prog.axiomsByPkg[sf.pkg] {
-		x.useAxiom(ax)
+		if strings.Contains(ax.Text, "@"+sf.decl.Name+"(") {
+			x.useAxiom(ax)
+		} else if !strings.Contains(ax.Text, "@") && strings.Contains(x.unit, ".lemma:") {
+			x.useAxiom(ax)
+		}
 	}
 }
 
